@@ -492,6 +492,13 @@ impl VM {
                     let result = self.pop();
                     self.popframe();
 
+                    #[cfg(feature = "verif")]
+                    crate::verif::gc_spec_roots(&[
+                        self.stack.as_slice(),
+                        constants.as_slice(),
+                        self.globals.as_slice(),
+                        &[final_result, result],
+                    ]);
                     gc.run(&[
                         self.stack.as_slice(),
                         constants.as_slice(),
@@ -504,6 +511,13 @@ impl VM {
                 OpCode::Return => {
                     self.popframe();
 
+                    #[cfg(feature = "verif")]
+                    crate::verif::gc_spec_roots(&[
+                        self.stack.as_slice(),
+                        constants.as_slice(),
+                        self.globals.as_slice(),
+                        &[final_result],
+                    ]);
                     gc.run(&[
                         self.stack.as_slice(),
                         constants.as_slice(),
